@@ -870,6 +870,17 @@ func (e *Engine) evalSpecCall(x *SExpr, env *SpecEnv) Value {
 			return VTerm{T: mkApp(args[0].Val, SBool, ts...), Typ: boolT}
 		}
 		return VTerm{T: mkApp(args[0].Val, SInt, ts...), Typ: intT}
+	case "gcnt":
+		// gcnt(x, "name"): ghost counter of calls of a certain kind made on object x (see attr counts)
+		if len(args) != 2 || args[1].Kind != "str" {
+			unsup("spec: gcnt(x, \"name\")")
+		}
+		v := term(e.evalSpec(args[0], env))
+		return VTerm{T: env.st.getMem("gcnt:"+args[1].Val+":"+v.String(), mkApp("gcnt0_"+args[1].Val, SInt, v)), Typ: intT}
+	case "csverrfinal":
+		// csverrfinal(w): the last csv.Writer.Error() of w was asked with nothing pending (after Flush)
+		v := term(e.evalSpec(args[0], env))
+		return VTerm{T: env.st.getMem("csverrfinal:"+v.String(), tFalse), Typ: boolT}
 	case "rkind":
 		return VTerm{T: mkApp("reflect_kind", SInt, term(e.evalSpec(args[0], env))), Typ: intT}
 	case "rtype":
